@@ -1,10 +1,10 @@
 (* Property C17 — tree navigation and the TDVP sweep order are correct on every rooted tree.
    Statements only; each is closed by `exact`.  Universal statements quantify over every
-   rtree with unique identifiers (NoDup (ids t)); statements named *_bounded_N quantify over
-   the finite enumeration `trees_upto N` and are evaluated by the kernel (vm_compute). *)
+   rtree with unique identifiers (NoDup (ids t)); the one statement named *_bounded_N
+   quantifies over the finite enumeration `trees_upto N` and is evaluated by the kernel. *)
 From Coq Require Import List Arith Permutation.
 From PTN Require Import Tree.RTree Tree.RTreeProofs Tree.Nav Tree.NavProofs
-     Tree.UpdatePath Tree.UpdatePathProofs Tree.CachePath Tree.Enum Tree.EnumProofs.
+     Tree.UpdatePath Tree.UpdatePathProofs Tree.CachePath Tree.CachePathProofs Tree.Enum Tree.EnumProofs.
 Import ListNotations.
 
 (* ---- linearise: permutation of the nodes, children before parents, root last -------- *)
@@ -64,12 +64,13 @@ Theorem C17_root_distance_spec : forall t, NoDup (ids t) ->
 Proof. exact root_distance_spec. Qed.
 Print Assumptions C17_root_distance_spec.
 
-(* distances from every centre: bounded companion (all trees with <= 9 nodes) *)
-Theorem C17_distance_spec_bounded_9 : forall t, In t (trees_upto 9) ->
-  forall c, In c (ids t) -> exists d, distance_to_node t c = Some d /\ length d = size t /\
-    forall x, In x (ids t) -> exists k, assoc x d = Some k /\ tree_dist t c x = Some k.
-Proof. exact distances_bounded_9. Qed.
-Print Assumptions C17_distance_spec_bounded_9.
+(* distances from every centre (dict order = pre-order of the tree re-rooted at c) *)
+Theorem C17_distance_spec : forall t c, NoDup (ids t) -> In c (ids t) ->
+  exists d, distance_to_node t c = Some d /\ Permutation (map fst d) (ids t) /\
+    forall x, In x (ids t) ->
+      exists p, path_from_to t c x = Some p /\ assoc x d = Some (length p - 1).
+Proof. exact distance_spec. Qed.
+Print Assumptions C17_distance_spec.
 
 (* ---- subtree, leaves, subtree size ----------------------------------------------- *)
 Theorem C17_subtree_spec : forall t x, NoDup (ids t) -> In x (ids t) ->
@@ -123,27 +124,39 @@ Theorem C17_update_path_end : forall t, NoDup (ids t) ->
 Proof. exact update_path_end. Qed.
 Print Assumptions C17_update_path_end.
 
-(* walking the update path along tree paths crosses no edge more than twice: bounded *)
-Theorem C17_update_path_crossings_bounded_10 : forall t, In t (trees_upto 10) ->
+(* walking the update path along tree paths crosses no edge more than twice: BOUNDED
+   (all rooted ordered trees with at most 11 nodes); the universal statement is open *)
+Theorem C17_update_path_crossings_bounded_11 : forall t, In t (trees_upto 11) ->
   exists p w, update_path t = Some p /\ walk_edges t p = Some w /\
               forall e, In e (edges t) -> crossings e w <= 2.
-Proof. exact crossings_bounded_10. Qed.
-Print Assumptions C17_update_path_crossings_bounded_10.
+Proof. exact crossings_bounded_11. Qed.
+Print Assumptions C17_update_path_crossings_bounded_11.
 
-(* ---- the initial cache: bounded -------------------------------------------------- *)
-(* cache_ok t u keys: one key per edge and no others; every key (n, m) has m = the second
-   node of the path from n to u; the keys (j, n) of the other neighbours of n precede (n, m) *)
-Theorem C17_cache_keys_bounded_10 : forall t, In t (trees_upto 10) ->
-  exists u l keys, update_path t = Some (u :: l) /\ tdvp_cache_keys t = Some keys /\ cache_ok t u keys.
-Proof. exact cache_bounded_10. Qed.
-Print Assumptions C17_cache_keys_bounded_10.
+(* ---- the initial cache ----------------------------------------------------------- *)
+(* init_cache_but_one(left_out = u): exactly one block per edge (as unordered pairs the key
+   list is a permutation of the edge list); every block (n, m) points toward u (m is the
+   second node of the path n -> u); the blocks (j, n) of the other neighbours j of n, from
+   which the block (n, m) is contracted, are created before it *)
+Theorem C17_cache_keys_spec : forall t first, NoDup (ids t) -> In first (ids t) ->
+  exists keys, cache_keys t first = Some keys /\
+    Permutation (map sort_pair keys) (map sort_pair (edges t)) /\
+    (forall n m, In (n, m) keys -> exists r, path_from_to t n first = Some (n :: m :: r)) /\
+    (forall pre n m post, keys = pre ++ (n, m) :: post ->
+       forall j, In j (neighbours t n) -> j <> m -> In (j, n) pre).
+Proof. exact cache_keys_spec. Qed.
+Print Assumptions C17_cache_keys_spec.
 
-Theorem C17_cache_keys_any_bounded_9 : forall t, In t (trees_upto 9) ->
-  forall u, In u (ids t) -> exists keys, cache_keys t u = Some keys /\ cache_ok t u keys.
-Proof. exact cache_any_bounded_9. Qed.
-Print Assumptions C17_cache_keys_any_bounded_9.
+(* the cache a TDVP run starts from: everything but update_path[0] *)
+Theorem C17_tdvp_cache_keys_spec : forall t, NoDup (ids t) ->
+  exists u l keys, update_path t = Some (u :: l) /\ tdvp_cache_keys t = Some keys /\
+    Permutation (map sort_pair keys) (map sort_pair (edges t)) /\
+    (forall n m, In (n, m) keys -> exists r, path_from_to t n u = Some (n :: m :: r)) /\
+    (forall pre n m post, keys = pre ++ (n, m) :: post ->
+       forall j, In j (neighbours t n) -> j <> m -> In (j, n) pre).
+Proof. exact tdvp_cache_keys_spec. Qed.
+Print Assumptions C17_tdvp_cache_keys_spec.
 
-(* the bounded statements range over every tree shape up to the bound *)
+(* the bounded statement ranges over every tree shape up to the bound *)
 Theorem C17_enumeration_complete : forall t n, size t <= n -> In (relabel (erase t)) (trees_upto n).
 Proof. exact trees_upto_complete. Qed.
 Print Assumptions C17_enumeration_complete.
